@@ -448,6 +448,10 @@ def obs_diff(a, b, rel=REL, scale_of=None, skip_near_int_of=None):
             return f"{key}: empty in one build only"
         if x["t"] != y["t"]:
             return f"{key}: kind {x['t']} vs {y['t']}"
+        if x["t"] not in ("q", "h"):
+            if x.get("repr") != y.get("repr"):
+                return f"{key}: {str(x.get('repr'))[:60]} vs {str(y.get('repr'))[:60]}"
+            continue
         if tuple(x["dim"]) != tuple(y["dim"]):
             return f"{key}: dimension {x['dim']} vs {y['dim']}"
         if x["t"] == "q":
